@@ -13,7 +13,7 @@
    on [trap], on the peers or on the validity of the headers is needed. *)
 From stdpp Require Import list.
 From Coq Require Import ZArith Lia.
-From Verif Require Import S2.Model C19.Spec C19.Statements C19.Moments C19.Proofs C19.ProofsM.
+From Verif Require Import S2.Model S2.Replay C19.Spec C19.Statements C19.Moments C19.Proofs C19.ProofsM C19.Replay C19.ReplayLong C19.ProofsLong.
 Open Scope Z_scope.
 
 (* C19.1 — the events appended by ONE operation, exactly.  Either
@@ -186,6 +186,21 @@ Theorem C19_restart_silent : forall P gfh ops, in_domain ops ->
   (forall h, notifs_since h s' = notifs_since h s).
 Proof. exact restart_silent. Qed.
 Print Assumptions C19_restart_silent.
+
+(* C19.9 — the replay of the long-chain backlog histories (C19/ReplayLong.v:
+   both real header stores filled with thousands of entries, backlog requests
+   from up to the whole chain below the committed tip) judges with the real
+   things although it avoids a list lookup per entry: whenever the recorded
+   store contents pass its sanity test [long_pre], the answer it expects from
+   the model IS S2.Model.notifs_since on the state with these store contents,
+   and its test of the implementation's answer IS [backlog_ok], the formula of
+   C19.3. *)
+Theorem C19_long_chain_replay_faithful : forall c h q, long_pre c = true -> 0 <= h ->
+  model_answer c (unruns (lchain c)) h = notifs_since h (lstate c) /\
+  backlog_ok_fast (unruns (lchain c)) (zn (lflen c)) q =
+    backlog_ok (map fst (unruns (lchain c))) (zn (lflen c)) q.
+Proof. exact long_replay_faithful. Qed.
+Print Assumptions C19_long_chain_replay_faithful.
 
 (* Non-vacuity: a peer, two header batches and two filter-header batches
    (heights 1-2, then 3-4 of a chain of height 6); a 4-header branch forking
